@@ -45,7 +45,7 @@ Section OwnerSim.
 Variable f : fam.
 Variable p : tok.
 Variable own : rule.
-Hypothesis Hp : nospace p = true.
+Hypothesis Hp : pname_ok p = true.
 Hypothesis Hpo : port_ok p = true.
 Variable T0 : table.
 Let sp := nat_is f (Some own) p.
@@ -59,7 +59,8 @@ Proof.
   - intros x y Hx Hy _. destruct x, y; cbn in Hx, Hy; congruence.
   - intros x _. cbn. unfold nat_chain. discriminate.
   - intros x _. cbn. unfold nat_chain. discriminate.
-  - intros x _. cbn. unfold nat_chain. rewrite nospace_app, Hp. reflexivity.
+  - intros x _. cbn. unfold nat_chain. rewrite nospace_app, (pname_nospace p Hp). reflexivity.
+  - intros x _. cbn. unfold nat_chain. apply aname_app; [reflexivity | exact (pname_ascii p Hp) | discriminate].
   - intros x Hx. destruct x; cbn in Hx; try discriminate. exact J.
   - intros x Hx. destruct x; cbn in Hx; try discriminate. exact J.
   - reflexivity.
@@ -341,7 +342,7 @@ Hypothesis Hm : c_method c = MNat.
 Hypothesis Ho : c_owner c = Some own.
 Hypothesis Hudp : c_udp c = false.
 Hypothesis Hwf : cfg_wf c = true.
-Hypothesis Hport : forall f, nospace (fc_port (fcfg c f)) = true.
+Hypothesis Hport : forall f, pname_ok (fc_port (fcfg c f)) = true.
 Variable s0 : kstate.
 Hypothesis He : erase c s0 = s0.
 Hypothesis Hk : kst_wf s0 = true.
